@@ -36,22 +36,38 @@ func c07Mut(innov int64, pattern int) float64 {
 	}
 }
 
-func c07Genome(mask, pattern int) *genetics.Genome {
-	out := network.NewNNode(100, network.OutputNeuron)
+func c07Genome(mask, pattern int) *genetics.Genome { return c07GenomeX(0, mask, pattern, 0) }
+
+// c07GenomeX: `prefix` genes #1..#prefix followed by the genes #prefix+1+i for the set bits i of mask.
+// attr 0: every gene enabled, weight 0.5, not recurrent; attr 1: the attributes the formula does NOT
+// mention differ - every second gene disabled, other weights, some genes flagged recurrent.
+func c07GenomeX(prefix, mask, pattern, attr int) *genetics.Genome {
+	out := network.NewNNode(1000, network.OutputNeuron)
 	nodes := []*network.NNode{}
 	var genes []*genetics.Gene
-	for i := 0; mask>>uint(i) != 0; i++ {
-		if mask&(1<<uint(i)) == 0 {
-			continue
-		}
-		in := network.NewSensorNode(i+1, false)
+	add := func(innov int) {
+		in := network.NewSensorNode(innov, false)
 		nodes = append(nodes, in)
-		genes = append(genes, genetics.NewGene(0.5, in, out, false, int64(i+1), c07Mut(int64(i+1), pattern)))
+		g := genetics.NewGene(0.5, in, out, false, int64(innov), c07Mut(int64(innov), pattern))
+		if attr == 1 {
+			g.IsEnabled = innov%2 == 0
+			g.Link.ConnectionWeight = -3.25 * float64(innov)
+			g.Link.IsRecurrent = innov%3 == 0
+		}
+		genes = append(genes, g)
+	}
+	for i := 1; i <= prefix; i++ {
+		add(i)
+	}
+	for i := 0; mask>>uint(i) != 0; i++ {
+		if mask&(1<<uint(i)) != 0 {
+			add(prefix + i + 1)
+		}
 	}
 	nodes = append(nodes, out)
 	tr := neat.NewTrait()
 	tr.Id = 1
-	return genetics.NewGenome(mask, []*neat.Trait{tr}, nodes, genes)
+	return genetics.NewGenome(mask*2+attr, []*neat.Trait{tr}, nodes, genes)
 }
 
 // c07Ref computes E, D, W by set arithmetic.
@@ -99,6 +115,7 @@ func c07Ref(a, b *genetics.Genome) (e, d int, w float64) {
 
 type c07Case struct {
 	MaskA, PatA, MaskB, PatB, Coeff int
+	Prefix, AttrA, AttrB             int
 }
 
 func c07Opts(ci int, linear bool) *neat.Options {
@@ -168,6 +185,9 @@ func c07Describe(cs c07Case, ga, gb *genetics.Genome) string {
 				s += " "
 			}
 			s += fmt.Sprintf("#%d(m=%g)", gn.InnovationNum, gn.MutationNum)
+			if !gn.IsEnabled {
+				s += "d"
+			}
 		}
 		return s + "}"
 	}
@@ -196,7 +216,7 @@ func runC07(c *Ctx) {
 		for j := 0; j < total; j++ {
 			gb := genomes[j]
 			for ci := range c07Coeffs {
-				cs := c07Case{i / 3, i % 3, j / 3, j % 3, ci}
+				cs := c07Case{MaskA: i / 3, PatA: i % 3, MaskB: j / 3, PatB: j % 3, Coeff: ci}
 				evals += 2
 				fails := c07Eval(cs, ga, gb)
 				e, d, _ := c07Ref(ga, gb)
@@ -236,16 +256,60 @@ func runC07(c *Ctx) {
 			c.Distinct(h)
 		}
 	})
+	// stage 2: long genomes and attributes the formula does not mention. Every length 0..maxPrefix of a
+	// common run of genes #1..#L (whatever threshold on the genome size an implementation may have lies
+	// inside) followed by every pair of tails over 3 further innovations, each genome with plain attributes
+	// and with every second gene disabled / other weights / recurrence flags.
+	maxPrefix := 48
+	if !c.Quick() {
+		maxPrefix = 160
+	}
+	parFor(maxPrefix+1, func(L int) {
+		var gs []*genetics.Genome
+		var meta [][3]int
+		for m := 0; m < 8; m++ {
+			for p := 0; p < 3; p++ {
+				for at := 0; at < 2; at++ {
+					gs = append(gs, c07GenomeX(L, m, p, at))
+					meta = append(meta, [3]int{m, p, at})
+				}
+			}
+		}
+		var evals int64
+		classes := map[uint64]struct{}{}
+		for i, ga := range gs {
+			for j, gb := range gs {
+				for ci := range c07Coeffs {
+					cs := c07Case{MaskA: meta[i][0], PatA: meta[i][1], MaskB: meta[j][0], PatB: meta[j][1], Coeff: ci, Prefix: L, AttrA: meta[i][2], AttrB: meta[j][2]}
+					evals += 2
+					e, d, _ := c07Ref(ga, gb)
+					classes[uint64(L)<<48|uint64(e)<<40|uint64(d)<<24|uint64(meta[i][2]*2+meta[j][2])<<8|uint64(ci)] = struct{}{}
+					for _, f := range c07Eval(cs, ga, gb) {
+						ord := int64(1)<<50 | int64(L)<<30 | int64(i)<<10 | int64(j)
+						c.ViolateOrd("C07/"+f[0], ord, f[1]+" for "+c07Describe(cs, ga, gb), &Replay{Scenario: "pair",
+							Params: map[string]interface{}{"maskA": cs.MaskA, "patA": cs.PatA, "maskB": cs.MaskB, "patB": cs.PatB, "coeff": cs.Coeff, "prefix": L, "attrA": cs.AttrA, "attrB": cs.AttrB},
+							Trace:  c07Describe(cs, ga, gb)})
+					}
+				}
+			}
+		}
+		c.AddEval(evals)
+		for h := range classes {
+			c.Distinct(h)
+		}
+	})
+	c.Rule += fmt.Sprintf("; STAGE 2: for every length L = 0..%d of a common run of genes #1..#L, all ordered pairs of genomes 'run + subset of 3 further innovations' x 3 mutation-number patterns x 2 attribute settings (plain; every second gene disabled, other weights, recurrence flags - attributes the formula does not mention) x %d coefficient settings x both methods", maxPrefix, len(c07Coeffs))
 	c.Sample(map[string]interface{}{"a": "{#1 #3}", "b": "{#2 #4}", "coeffs": c07Coeffs[0], "expected": "E=1 D=3 W=0 -> 4"})
-	c.Sample(c07Describe(c07Case{5, 1, 6, 2, 1}, genomes[5*3+1], genomes[6*3+2]))
+	c.Sample(c07Describe(c07Case{MaskA: 5, PatA: 1, MaskB: 6, PatB: 2, Coeff: 1}, genomes[5*3+1], genomes[6*3+2]))
 	c.Extra["alphabet_k"] = k
 	c.Extra["gene_lists"] = nl
-	c.Assume("mutation numbers are drawn from {0,0.5,-1.25,3,1e21}; coefficients from a 6-row menu; innovation alphabet bounded by k")
+	c.Assume("mutation numbers are drawn from {0,0.5,-1.25,3,1e21}; coefficients from a 6-row menu; innovation alphabet bounded by k; genomes longer than k genes only as a common run plus a 3-innovation tail")
 }
 
 func replayC07(c *Ctx, rp *Replay) (bool, string) {
-	cs := c07Case{paramInt(rp, "maskA"), paramInt(rp, "patA"), paramInt(rp, "maskB"), paramInt(rp, "patB"), paramInt(rp, "coeff")}
-	ga := c07Genome(cs.MaskA, cs.PatA)
+	cs := c07Case{MaskA: paramInt(rp, "maskA"), PatA: paramInt(rp, "patA"), MaskB: paramInt(rp, "maskB"), PatB: paramInt(rp, "patB"), Coeff: paramInt(rp, "coeff"),
+		Prefix: paramInt(rp, "prefix"), AttrA: paramInt(rp, "attrA"), AttrB: paramInt(rp, "attrB")}
+	ga := c07GenomeX(cs.Prefix, cs.MaskA, cs.PatA, cs.AttrA)
 	if rp.Scenario == "self" {
 		linear, _ := rp.Params["linear"].(bool)
 		o := c07Opts(cs.Coeff, linear)
@@ -259,7 +323,7 @@ func replayC07(c *Ctx, rp *Replay) (bool, string) {
 		}
 		return false, "self distance 0"
 	}
-	gb := c07Genome(cs.MaskB, cs.PatB)
+	gb := c07GenomeX(cs.Prefix, cs.MaskB, cs.PatB, cs.AttrB)
 	fails := c07Eval(cs, ga, gb)
 	if len(fails) > 0 {
 		return true, fails[0][1] + " for " + c07Describe(cs, ga, gb)
